@@ -493,7 +493,7 @@ def run(ck: common.Check, replay=None):
             mode, _, nr = mode.partition("/")
             items.append((f"corpus{k:02d}", mode, to_source(mode, lines, [hs] if hs else [], NR_UNI if nr else None), ref,
                           NR_UNI if nr else DEFAULT_UNI))
-        n = 70 if ck.tier == "quick" else 1500
+        n = 70 if ck.tier == "quick" else 400
         for k in range(n):
             mode = ck.rng.choice(["clocked"] * 6 + ["comb"] * 2 + ["conc"] * 2)
             uni = NR_UNI if ck.rng.random() < 0.3 else DEFAULT_UNI
